@@ -287,6 +287,26 @@ CHECKS = {
         'group-law primitives by contract on exponents mod q (C11); BatchDL '
         'contract inside ExtendedBatchDL with scenario-fixed spurious hits; '
         'counterexamples replayed on real secp256r1 arithmetic'),
+    'C02': (
+        True, '5/C02',
+        'symbolic execution of the filters that stand between the search '
+        'code and a recorded result (pysym): BatchDL verification step with a '
+        'havocked look-up table, relation strings of BatchDLOfDifferences '
+        'captured through their format arguments, ExtendedBatchDL result '
+        'mapping, _IssuerDLogs, and the nonce checks with arbitrary guesses',
+        'Bounded symbolic model checking of soundness: whatever the table / '
+        'lattice / guess producers deliver, a recorded log e satisfies '
+        'e*G = P for arbitrary target points (bound 4, 9, 16 (30)); every '
+        'relation text "key - Q = k*G" holds for some key of the batch; '
+        'ExtendedBatchDL maps indices back so that the value is congruent to '
+        'the private key (shifted, repeated, negated words; secp256r1 and '
+        '72-bit orders); _IssuerDLogs returns the guess whose point equals '
+        'the issuer key for guess lists of 3 and 300 (..1000); a signature '
+        'is marked weak only with an attached log d with MulG(d) = issuer '
+        'key (1..2 (3) signatures, three check classes).',
+        'cyclic-group model of the curve, MulG uninterpreted, lattice '
+        'reduction one arbitrary row; Cr50 congruence filter at 256 bits '
+        'outside; counterexamples replayed on real secp256r1 arithmetic'),
 }
 
 NOT_APPLICABLE = {
